@@ -1189,6 +1189,127 @@ static int ck_hmany(char **t, int nt) {
   return 0;
 }
 
+/* ---- CK hmanysep: every input in its own guarded buffer ------------------------------------
+ * One mapping per thread, carved into regions  G D..D G D..D G ...  (G = PROT_NONE page, D..D =
+ * `dpages` read/write pages).  Input i ends `slack` bytes before the guard page that follows
+ * region i (slack = 0: its last byte is the last accessible byte); it is preceded by the previous
+ * guard page when it fills its region exactly, otherwise by unused readable bytes. */
+typedef struct {
+  uint8_t *base;
+  size_t nregions, dpages;
+} seps_t;
+static __thread seps_t SEPS;
+
+static void seps_free(void) {
+  if (SEPS.base) munmap(SEPS.base, (SEPS.nregions * (SEPS.dpages + 1) + 1) * PAGE);
+  SEPS.base = NULL;
+  SEPS.nregions = SEPS.dpages = 0;
+}
+static bool seps_need(size_t n, size_t dpages) {
+  if (SEPS.base && SEPS.dpages == dpages && SEPS.nregions >= n) return true;
+  seps_free();
+  if (n < 32) n = 32;
+  size_t total = (n * (dpages + 1) + 1) * PAGE;
+  uint8_t *p = mmap(NULL, total, PROT_NONE, MAP_PRIVATE | MAP_ANONYMOUS, -1, 0);
+  if (p == MAP_FAILED) return false;
+  for (size_t i = 0; i < n; i++)
+    if (mprotect(p + (i * (dpages + 1) + 1) * PAGE, dpages * PAGE, PROT_READ | PROT_WRITE) != 0) {
+      munmap(p, total);
+      return false;
+    }
+  SEPS.base = p;
+  SEPS.nregions = n;
+  SEPS.dpages = dpages;
+  return true;
+}
+/* first byte after the data pages of region i (= start of the guard page that follows it) */
+static uint8_t *seps_end(size_t i) { return SEPS.base + (i + 1) * (SEPS.dpages + 1) * PAGE; }
+
+#define SEP_MAX_N 256
+#define SEP_MAX_BLOCKS 1024
+#define SEP_OTHER_SLACK 512
+
+/* CK hmanysep <sym> <n> <blocks> <seed> <key> <counter> <incr> <flags> <fstart> <fend> [<slack> [<idx>]]
+ * extension: <slack> readable bytes follow every input (default 0); with <idx> only input idx gets
+ * <slack>, all others SEP_OTHER_SLACK bytes (to find out which input is over-read by how much) */
+static int ck_hmanysep(char **t, int nt) {
+  if (nt < 10 || nt > 12) return -1;
+  const flavour_t *f = find_flavour(t[0]);
+  size_t n, blocks, slack = 0, idx = SIZE_MAX;
+  uint64_t seed, counter;
+  uint8_t key[32], flags, fstart, fend;
+  bool incr;
+  if (!f) return -1;
+  if (!parse_size(t[1], SEP_MAX_N, &n) || !parse_size(t[2], SEP_MAX_BLOCKS, &blocks) ||
+      !parse_u64(t[3], &seed) || !parse_hex_exact(t[4], key, 32) || !parse_u64(t[5], &counter))
+    return -1;
+  if (strcmp(t[6], "0") == 0)
+    incr = false;
+  else if (strcmp(t[6], "1") == 0)
+    incr = true;
+  else
+    return -1;
+  if (!parse_u8(t[7], &flags) || !parse_u8(t[8], &fstart) || !parse_u8(t[9], &fend)) return -1;
+  if (nt >= 11 && !parse_size(t[10], MAX_OFF, &slack)) return -1;
+  if (nt == 12 && (!parse_size(t[11], SEP_MAX_N, &idx) || idx >= n)) return -1;
+  if (f->hmany == NULL || !cpu_has(f->level)) {
+    fputs("unsupported", OUT);
+    return 0;
+  }
+  size_t len = blocks * 64, total_out = n * 32;
+  size_t maxslack = nt == 12 && SEP_OTHER_SLACK > slack ? SEP_OTHER_SLACK : slack;
+  size_t dpages = (len + maxslack + PAGE - 1) / PAGE;
+  if (dpages == 0) dpages = 1;
+  if (!seps_need(n, dpages) || !arena_need(&AR_OUT, total_out + CANARY_WINDOW) ||
+      !arena_need(&AR_PTR, n * sizeof(uint8_t *)))
+    return -1;
+  uint8_t *first = malloc(total_out ? total_out : 1);
+  if (!first) return -1;
+  int fl = 0;
+  int sanb = san_begin();
+  for (int run = 0; run < 2; run++) {
+    outbuf_t ob;
+    const uint8_t **ptrs = (const uint8_t **)(void *)arena_hi(&AR_PTR, n * sizeof(uint8_t *));
+    for (size_t i = 0; i < n; i++) {
+      size_t sl = nt == 12 && i != idx ? SEP_OTHER_SLACK : slack;
+      uint8_t *end = seps_end(i);
+      memset(end - dpages * PAGE, 0xEE, dpages * PAGE);
+      uint8_t *in = end - sl - len;
+      lcg_fill(in, len, seed + (uint64_t)i);
+      ptrs[i] = in;
+    }
+    uint8_t *pkey = input_flush(&AR_CV, key, 32);
+    if (!pkey) {
+      free(first);
+      return -1;
+    }
+    outbuf_arm(&AR_OUT, &ob, place(&AR_OUT, run == 0 ? PLACE_HI : PLACE_LO, total_out, 0),
+               total_out, PREFILL[run]);
+    uint64_t a[10];
+    a[0] = (uint64_t)(uintptr_t)ptrs;
+    a[1] = n;
+    a[2] = blocks;
+    a[3] = (uint64_t)(uintptr_t)pkey;
+    a[4] = counter;
+    a[5] = narrow_arg(incr ? 1 : 0);
+    a[6] = narrow_arg(flags);
+    a[7] = narrow_arg(fstart);
+    a[8] = narrow_arg(fend);
+    a[9] = (uint64_t)(uintptr_t)ob.out;
+    fl |= call_kernel(f, f->hmany, a);
+    if (!outbuf_intact(&ob)) fl |= FLAG_CANARY;
+    if (run == 0)
+      memcpy(first, ob.out, total_out);
+    else if (memcmp(first, ob.out, total_out) != 0)
+      fl |= FLAG_MISMATCH;
+  }
+  fl |= san_flag(sanb);
+  put_hex(first, total_out);
+  put_flags(fl);
+  free(first);
+  return 0;
+}
+
 /* CK xofmany <sym> <cv> <block> <block_len> <counter> <flags> <n> */
 static int ck_xofmany(char **t, int nt) {
   if (nt != 7) return -1;
@@ -1293,6 +1414,7 @@ static int dispatch(char **t, int nt) {
     if (strcmp(op, "cip") == 0) return ck_single(r, n, false);
     if (strcmp(op, "cxof") == 0) return ck_single(r, n, true);
     if (strcmp(op, "hmany") == 0) return ck_hmany(r, n);
+    if (strcmp(op, "hmanysep") == 0) return ck_hmanysep(r, n);
     if (strcmp(op, "xofmany") == 0) return ck_xofmany(r, n);
     if (strcmp(op, "list") == 0) return ck_list(n);
     if (strcmp(op, "dirty") == 0) return ck_dirty(r, n);
@@ -1312,6 +1434,7 @@ static void *thread_setup(FILE *out) {
   return altstack_install();
 }
 static void thread_teardown(void *alt) {
+  seps_free();
   arena_t *all[] = {&AR_CV, &AR_BLK, &AR_PTR, &AR_IN, &AR_OUT, &AR_HASHER, &AR_DATA};
   for (size_t i = 0; i < sizeof all / sizeof all[0]; i++)
     if (all[i]->base) munmap(all[i]->base, all[i]->cap + 2 * PAGE);
